@@ -39,6 +39,9 @@ def ssa_networks(n0, k1, k2):
         spec('N6_catalysis', [A, B, E], {A: n0, B: 0, E: 2}, [ma([A, E], [B, E], k1), ma([B], [A], k2)]),
         spec('N7_three_channels', [A, B, C, 'D'], {A: n0, B: 0, C: 0, 'D': 0},
              [ma([A], [B], k1), ma(['D'], [C], 5.0), ma([A], [C], k2), ma([B], [A], k1)]),
+        spec('N9_cycle3', [A, B, C], {A: n0, B: 1, C: 0}, [ma([A], [B], k1), ma([B], [C], k2), ma([C], [A], 0.9)]),
+        spec('N9b_five_channels', [A, B, C], {A: n0, B: 1, C: 0},
+             [ma([A], [B], k1), ma([B], [C], k2), ma([C], [A], 0.9), ma([A, B], [C, C], 0.4), ma([C, C], [A, B], 0.3)]),
         spec('N8_hillpos', [A, B], {A: n0, B: 1},
              [hill('hillpositive', [A], [B], k1, 2.0, 2.0, B), ma([B], [A], k2)]),
         spec('N8_hillneg', [A, B], {A: n0, B: 0},
